@@ -173,7 +173,10 @@ def r6(ctx):
     labels with the labels of the previous relabel).  A converged round that repopulated a one-member cluster therefore returns
     means of a different membership (finding F10).  Either the index computes the means from the members it iterates over, or the
     statistics are refreshed between the last relabel and the index on every path."""
-    from . import c09
+    from . import c09, c13
+    # the members the index iterates over belong to the model it is asked about: a copy that shares its cluster objects with its
+    # source reports the source's membership after either of them is relabelled
+    ctx.sub(c13.r5, only=("deep-copy:containers.model_state.ModelState", "deep-copy:containers.model_state.ClusterParameters"))
     src = mean_source(ctx.ana)
     fi = ctx.ana.func(CH)
     if src == "own":
